@@ -7,6 +7,7 @@ var checks = map[string][]HarnessSpec{
 		{Name: "verifC02Honest", Pkg: ".", Labels: []string{"accepted"}},
 		{Name: "verifC02Flip", Pkg: ".", Labels: []string{"ran"}},
 		{Name: "verifC02Subst", Pkg: ".", Labels: []string{"ran"}},
+		{Name: "verifC02UnlistedSuite", Pkg: ".", Labels: []string{"listed", "unlisted"}},
 	},
 	"C03": {
 		{Name: "verifC03Reconstruct", Pkg: ".", Labels: []string{"accepted", "checked"}},
@@ -37,6 +38,7 @@ var checks = map[string][]HarnessSpec{
 	},
 	"C09": {
 		{Name: "verifC09KeySets", Pkg: ".", Labels: []string{"ran", "accepted", "passthrough"}},
+		{Name: "verifC09Retry", Pkg: ".", Labels: []string{"retried"}},
 	},
 	"C10": {
 		{Name: "verifC10AfterReturn", Pkg: ".", Labels: []string{"after-return"}},
@@ -57,6 +59,7 @@ var checks = map[string][]HarnessSpec{
 	"C13": {
 		{Name: "verifC13RoundTrip", Pkg: "./dns", Labels: []string{"roundtrip"}},
 		{Name: "verifC13Compressed", Pkg: "./dns", Labels: []string{"compressed"}},
+		{Name: "verifC13RefDecode", Pkg: "./dns", Labels: []string{"refdecoded"}},
 		{Name: "verifC13Padding", Pkg: "./dns", Labels: []string{"padded"}},
 		{Name: "verifC13ResponseCode", Pkg: "./dns", Labels: []string{"rcode"}},
 	},
